@@ -678,6 +678,27 @@ Spec == Init /\ [][Next]_vars
 
 LevelBound == TLCGet("level") <= MaxLevel
 
+\* "One implementation test per transition": start from states exported by an earlier exhaustive run
+\* (JSON array of records with the tree variables and scope stacks) and take single steps.
+InitStates == JsonDeserialize(IOEnv.INIT_FILE)
+InitFrom ==
+  \E i \in 1..Len(InitStates) :
+    LET z == InitStates[i] IN
+    /\ kind = [n \in Nodes |-> z.kind[n]]
+    /\ ditems = [n \in Nodes |-> z.ditems[n]]
+    /\ litems = [n \in Nodes |-> z.litems[n]]
+    /\ parent = [n \in Nodes |-> z.parent[n]]
+    /\ pkey = [n \in Nodes |-> z.pkey[n]]
+    /\ sealed = [n \in Nodes |-> z.sealed[n]]
+    /\ accw = [n \in Nodes |-> z.accw[n]]
+    /\ subs = [n \in Nodes |-> z.subs[n]]
+    /\ sstk = z.sstk /\ astk = z.astk /\ nstk = z.nstk
+    /\ out = Ok(0) /\ evts = {} /\ act = <<"From", i>>
+    /\ memo = [n \in Nodes |-> NoFacts]
+    /\ facts = AllFacts(St)
+StepNext == act[1] = "From" /\ Next          \* successors are terminal: exactly one step per start state
+SpecFrom == InitFrom /\ [][StepNext]_vars
+
 \* Re-running one recorded history (./check Cxx --replay FILE): the next call is the one the script names.
 Script == JsonDeserialize(IOEnv.SCRIPT_FILE)
 ScriptNext == /\ TLCGet("level") <= Len(Script)
